@@ -20,14 +20,15 @@
    nvm.runFunc.  The machine therefore has a stack of suspended VMs (souter):
    the calling VM waits inside its OpCallNative until the new VM has finished.
    What the closure does with the error of runFunc is written from the code:
-   nil - the native function returns and the caller goes on; a PanicError - it
-   panics with a fatalError whose message is the text of the chain, which
-   convertPanic of every VM below returns as it is, so that VM.Run panics with
-   that text; any other error (the stopError of env.Stop, the fatalError of
-   env.Fatal) - it panics with the error itself (it wraps only the error of
-   the context in a stopError), and convertPanic of the VMs below returns it
-   as it is: Run returns the error given to Stop / panics with the value given
-   to Fatal exactly as without the callback. *)
+   nil - the native function returns and the caller goes on; any error - it
+   panics with the error itself (it wraps only the error of the context in a
+   stopError).  A PanicError goes through the native function; runRecoverable
+   of the calling VM recovers it, convertPanic returns it as it is and runFunc
+   links the panics of the calling VM after its last record: the calling
+   function panics with the panics of the callback, at its call instruction.
+   The stopError of env.Stop and the fatalError of env.Fatal are returned as
+   they are by convertPanic of every VM below: Run returns the error given to
+   Stop / panics with the value given to Fatal exactly as without the callback. *)
 From Coq Require Import List NArith Bool Arith.
 Import ListNotations.
 
@@ -74,15 +75,14 @@ Inductive event := EBody (n : N) | ERecover (v : option N) | EStop (e : N) | EFa
 
 (* what VM.Run does: returns nil / returns the PanicError chain (newest
    first: message, recovered, line) / returns the error given to Stop /
-   panics with a value (the argument of Fatal, or a native panic wrapped in a
-   fatalError) / panics with a Go runtime error (a crash of the VM itself) *)
+   panics with a value (the argument of Fatal) / panics with a Go runtime
+   error (a crash of the VM itself) *)
 Inductive outcome :=
 | ONil
 | OPanic (chain : list (N * bool * option N))
 | OStop (e : N)
 | ORunPanics (v : N)
-| OCrash
-| OCbPanic (chain : list (N * bool)).   (* Run panics with the text of the chain of a panic that left a callback (newest first: message, recovered) *)
+| OCrash.
 
 Inductive mode := MExec | MNext (i1 : nat).   (* MNext (S i): the loop of nextCall is at index i; MNext 0: it has finished (returns false) *)
 
@@ -128,22 +128,31 @@ Fixpoint info_get (l : list (nat * N)) (pc : nat) : option N :=
 Definition chain_view (c : list prec) : list (N * bool * option N) :=
   map (fun p => (pmsg p, precovered p, ppos p)) c.
 
-Definition cb_view (c : list prec) : list (N * bool) :=
-  map (fun p => (pmsg p, precovered p)) c.
-
 (* the suspended VM sv goes on after its native call: the callback returned nil *)
 Definition resume (sv : saved) (rest : list saved) (s : state) : state :=
   mkstate MExec (Some (vfn sv)) (vpc sv) (vcalls sv) (vchain sv) (str s) (sraised s) rest.
 
 (* runFunc returns vm.panic (chain is not empty).  In the main VM it is what
-   Run returns; in the VM of a callback the closure of callable.Value turns it
-   into a fatalError with the text of the chain: every VM below passes it on
-   and Run panics with the text *)
-Definition end_panic (s : state) (chain : list prec) : sres :=
-  match souter s with
-  | [] => Fin (OPanic (chain_view chain)) (str s)
-  | _ :: _ => Fin (OCbPanic (cb_view chain)) (str s)
+   Run returns.  In the VM of a callback the closure of callable.Value panics
+   with it; the calling VM sv (suspended in its call instruction) recovers it,
+   links its own chain after the last record and, as for any panic, ends if it
+   has no call frame (then the same happens in the VM that waits for it) or
+   pushes a panicked frame holding its function and goes on with nextCall. *)
+Fixpoint end_panic_out (outer : list saved) (chain : list prec) (tr : list event) (raised : N) : sres :=
+  match outer with
+  | [] => Fin (OPanic (chain_view chain)) tr
+  | sv :: rest =>
+      let chain' := chain ++ vchain sv in
+      match vcalls sv with
+      | [] => end_panic_out rest chain' tr raised
+      | _ =>
+          let calls' := vcalls sv ++ [mkframe (CFn (vfn sv)) 0 Panicked] in
+          Next (mkstate (MNext (length calls')) None (vpc sv) calls' chain' tr raised rest)
+      end
   end.
+
+Definition end_panic (s : state) (chain : list prec) : sres :=
+  end_panic_out (souter s) chain (str s) (sraised s).
 
 (* end of runFunc: the loop was left without an error *)
 Definition finish (s : state) : sres :=
@@ -227,7 +236,7 @@ Definition raise_with (s : state) (owner : callee) (line : option N) (v : N) : s
   let p := mkprec v false false line (sraised s) in
   let chain' := p :: schain s in
   match scalls s with
-  | [] => end_panic s chain'
+  | [] => end_panic_out (souter s) chain' (str s) (N.succ (sraised s))
   | _ =>
       let calls' := scalls s ++ [mkframe owner 0 Panicked] in
       Next (mkstate (MNext (length calls')) None (spc s) calls' chain' (str s) (N.succ (sraised s)) (souter s))
